@@ -182,6 +182,32 @@ TotalOrderType(x) ==
     [] OTHER -> TRUE
 
 (***************************************************************************)
+(* The hash built-in on strings (doc/spec.md "hash"): java.lang.String      *)
+(* hashCode, s[0]*31^(n-1) + ... + s[n-1] over the UTF-16 transcoding, as a  *)
+(* 32-bit value, here <<high 16 bits, low 16 bits>>.  b: valid UTF-8 bytes.  *)
+(***************************************************************************)
+RECURSIVE Utf8Decode(_)
+Utf8Decode(b) ==
+  IF b = <<>> THEN <<>>
+  ELSE LET c == b[1] IN
+    IF c < 128 THEN <<c>> \o Utf8Decode(SubSeq(b, 2, Len(b)))
+    ELSE IF c < 224 THEN <<(c - 192) * 64 + (b[2] - 128)>> \o Utf8Decode(SubSeq(b, 3, Len(b)))
+    ELSE IF c < 240 THEN <<(c - 224) * 4096 + (b[2] - 128) * 64 + (b[3] - 128)>> \o Utf8Decode(SubSeq(b, 4, Len(b)))
+    ELSE <<(c - 240) * 262144 + (b[2] - 128) * 4096 + (b[3] - 128) * 64 + (b[4] - 128)>> \o Utf8Decode(SubSeq(b, 5, Len(b)))
+RECURSIVE Utf16Units(_)
+Utf16Units(cps) ==
+  IF cps = <<>> THEN <<>>
+  ELSE LET c == cps[1] IN
+    (IF c < 65536 THEN <<c>> ELSE <<55296 + ((c - 65536) \div 1024), 56320 + ((c - 65536) % 1024)>>) \o Utf16Units(Tail(cps))
+RECURSIVE Poly31(_, _)
+Poly31(units, h) ==                  \* h = <<hi, lo>>;  h := h * 31 + unit  (mod 2^32)
+  IF units = <<>> THEN h
+  ELSE LET lo == h[2] * 31 + units[1]
+           hi == h[1] * 31 + (lo \div 65536)
+       IN Poly31(Tail(units), <<hi % 65536, lo % 65536>>)
+JavaStringHash(b) == Poly31(Utf16Units(Utf8Decode(b)), <<0, 0>>)
+
+(***************************************************************************)
 (* Identity of representation (type-strict): 1 and 1.0 are Eq but not Same. *)
 (***************************************************************************)
 RECURSIVE Same(_, _)
